@@ -27,6 +27,7 @@ type Witness struct {
 	Obs      []ObsVal `json:"observations"`
 	Covers   []string `json:"covers"`
 	Kind     string   `json:"kind"` // validation | violation
+	Budget   int64    `json:"budget,omitempty"`
 	Label    string   `json:"label,omitempty"`
 	Site     string   `json:"site,omitempty"`
 	Msg      string   `json:"msg,omitempty"`
@@ -263,6 +264,12 @@ func (e *Engine) RunHarness(cfg *HarnessCfg, nValidate int) (res *HarnessResult)
 			default:
 				w.Outcome = v.Kind
 				w.Msg = v.Label
+			}
+			switch v.Kind {
+			case "alloc":
+				w.Budget = cfg.AllocBudget + cfg.AllocPerByte*e.p.inputLen
+			case "steps":
+				w.Budget = e.stepLimit
 			}
 			vioWit = append(vioWit, w)
 		}
